@@ -21,7 +21,6 @@ import (
 	"io"
 	"net"
 	"net/netip"
-	"os"
 	"strings"
 	"sync"
 	"sync/atomic"
@@ -55,8 +54,6 @@ import (
 )
 
 const watchdog = 45 * time.Second
-
-var debugSwarm = os.Getenv("C10_DEBUG") != ""
 
 // ---- address helpers (text based, independent of manet) ---------------------------------------
 
@@ -472,6 +469,7 @@ type rhost struct {
 	store  *recDS                                 // datastore of the real gater (gating hosts only)
 	listen map[string]map[string]ma.Multiaddr     // transport -> ip -> listen multiaddr
 	real   func() *conngater.BasicConnectionGater // current real gater (nil func on plain hosts)
+	closer func()                                 // set when the host owns more than the swarm (libp2p.New)
 }
 
 func (h *rhost) ip(v6 bool) net.IP {
@@ -657,6 +655,10 @@ func newHost(label, name string, ips []string, tpts []string, gated bool, resolv
 }
 
 func (h *rhost) close() {
+	if h.closer != nil {
+		h.closer()
+		return
+	}
 	if h.sw != nil {
 		h.sw.Close()
 	}
@@ -696,11 +698,12 @@ func (s swStep) String() string {
 }
 
 type scenario struct {
-	Idx   int        `json:"idx"`
-	Tpts  []string   `json:"transports"`
-	Gated []bool     `json:"gated"` // per host
-	IPs   [][]string `json:"ips"`
-	Steps []swStep   `json:"steps"`
+	NoDialLog bool       `json:"no_dial_log,omitempty"` // hosts built by libp2p.New: transports are not wrapped
+	Idx       int        `json:"idx"`
+	Tpts      []string   `json:"transports"`
+	Gated     []bool     `json:"gated"` // per host
+	IPs       [][]string `json:"ips"`
+	Steps     []swStep   `json:"steps"`
 }
 
 func (sc scenario) String() string {
@@ -838,7 +841,10 @@ func waitFor(mons []*monitor, cond func() bool) bool {
 	}
 }
 
-func runScenario(sc scenario) (out swOutcome) {
+// hostMaker builds one host of a scenario (newHost: hand-built swarm; newLibp2pHost: libp2p.New).
+type hostMaker func(label, name string, ips []string, tpts []string, gated bool, resolver network.MultiaddrDNSResolver) (*rhost, error)
+
+func runScenario(sc scenario, mk hostMaker) (out swOutcome) {
 	out.counts = stats{}
 	names := map[string]string{}
 	res := &staticResolver{names: names}
@@ -850,7 +856,7 @@ func runScenario(sc scenario) (out swOutcome) {
 	}()
 	label := fmt.Sprintf("s%d", sc.Idx)
 	for i, ips := range sc.IPs {
-		h, err := newHost(label, fmt.Sprintf("h%d", i), ips, sc.Tpts, sc.Gated[i], res)
+		h, err := mk(label, fmt.Sprintf("h%d", i), ips, sc.Tpts, sc.Gated[i], res)
 		if err != nil {
 			out.inconclusive = "host setup: " + err.Error()
 			return
@@ -1054,7 +1060,7 @@ func runScenario(sc scenario) (out swOutcome) {
 				if st.Form != "plain" {
 					out.counts.add("refused.form."+st.Form, 1)
 				}
-				if gs.dials == 0 {
+				if gs.dials == 0 && !sc.NoDialLog {
 					out.counts.add("refused_before_any_transport_dial", 1)
 				}
 			case dialErr != nil && errors.Is(dialErr, context.DeadlineExceeded):
@@ -1062,9 +1068,6 @@ func runScenario(sc scenario) (out swOutcome) {
 				return
 			default:
 				out.counts.add("failed_other."+key+"."+st.Form, 1)
-				if debugSwarm {
-					fmt.Printf("DEBUG s%d step %d %s: dial error: %v | dialer-side summary %+v\n", sc.Idx, si, st, dialErr, dialer.mon.summary(epochs[0]).refusedBy)
-				}
 			}
 			// secondary evidence for "refused before any transport dial": the remote listener saw nothing
 			if st.Dir == "out" && len(own.refusedBy) > 0 && len(own.admitted) == 0 && own.dials == 0 {
@@ -1159,7 +1162,7 @@ func composition(r *run.R, n int) {
 			return
 		}
 		sc := genScenario(i, r, pool)
-		o := runScenario(sc)
+		o := runScenario(sc, newHost)
 		r.Eval(1)
 		a.merge(o.counts)
 		if len(o.viol) > 0 && o.inconclusive == "" {
@@ -1183,8 +1186,8 @@ func composition(r *run.R, n int) {
 		}
 		if o.refused > 0 && o.admitted > 0 && sampled.Add(1) <= 2 {
 			ev := o.logs["h0"]
-			if len(ev) > 60 {
-				ev = ev[:60]
+			if len(ev) > 24 {
+				ev = ev[:24]
 			}
 			r.Sample(map[string]any{"part": "composition", "case": caseID, "scenario": sc.String(), "gating_host_events_head": ev,
 				"refused_attempts": o.refused, "admitted_attempts": o.admitted})
@@ -1199,5 +1202,12 @@ func composition(r *run.R, n int) {
 		"refused.InterceptAccept/tcp", "refused.InterceptAccept/quic", "refused.InterceptSecured(inbound)/tcp", "refused.InterceptSecured(inbound)/quic",
 		"admitted.in.tcp", "admitted.in.quic", "admitted.out.tcp", "admitted.out.quic", "refused_before_any_transport_dial", "gater_restarts"} {
 		r.Require("swarm."+k, 2)
+	}
+	if len(pool) > 2 {
+		for _, k := range []string{"refused.InterceptAccept/webrtc", "refused.InterceptAccept/webtransport", "refused.InterceptAddrDial/ws",
+			"refused.InterceptSecured(inbound)/ws", "refused.InterceptSecured(inbound)/webrtc", "refused.InterceptSecured(inbound)/webtransport",
+			"admitted.in.ws", "admitted.in.webrtc", "admitted.in.webtransport", "admitted.out.ws", "admitted.out.webrtc", "admitted.out.webtransport"} {
+			r.Require("swarm."+k, 2)
+		}
 	}
 }
